@@ -1,5 +1,5 @@
 CONSTANTS
-  Family = "redir"
+  Family = "pfc"
   Defects = {}
   Big = TRUE
 SPECIFICATION Spec
